@@ -1183,11 +1183,16 @@ class ValueMap(Value):
     def __lt__(self, other):
         return str(self) < str(other)
 
+    def getSortedEntries(self):
+        # (key, value) pairs in key order, taken from the entries themselves:
+        # a key that was changed in place can no longer be looked up
+        return sorted(self.value.items(), key=lambda entry: entry[0])
+
     def __repr__(self):
         inner = ", ".join(
             [
-                f"{key} => {self.value[key]}"
-                for key in self.getSortedKeys()
+                f"{key} => {value}"
+                for key, value in self.getSortedEntries()
             ]
         )
         # keep nested set/map brackets apart, so the text can be parsed again
@@ -1244,8 +1249,8 @@ class ValueMap(Value):
 
     def asObject(self):
         result = ValueObject()
-        for key in self.getSortedKeys():
-            result.addItem(key.asString().value, self.value[key])
+        for key, value in self.getSortedEntries():
+            result.addItem(key.asString().value, value)
         return result
 
     def asMap(self):
